@@ -295,3 +295,84 @@ func vpH_C13_ip_index() {
 	vpCover(!connected && retained && tracked == 1 && now == 2, "retained peer comes back from another address")
 	vpCover(connected && tracked == 1 && now == 0, "address lost between refreshes")
 }
+
+// gater_stats: the validation-overload gater's per-source statistics are reclaimed too: a peer connects, has messages
+// counted (delivered / rejected / ignored / duplicate), its two streams close in a symbolic order, and ONE more verdict
+// for a message of the peer may still come out of the validation pipeline - before the first close, between the two, or
+// AFTER both (an asynchronous validator that finishes late). Once the retention period has passed and the periodic decay
+// has run, the gater holds nothing for the peer, neither by peer ID nor by address.
+func vpH_C13_gater_stats() {
+	gp := &PeerGaterParams{Threshold: 0.33, GlobalDecay: 0.9, SourceDecay: 0.999, DecayInterval: time.Second, DecayToZero: 0.01,
+		RetainStats: time.Hour, Quiet: time.Minute, DuplicateWeight: 0.125, IgnoreWeight: 1, RejectWeight: 16}
+	nd := vpNewNode("self", vpNodeCfg{router: "gossipsub", opts: []Option{WithPeerGater(gp)}})
+	ps, gs := nd.ps, nd.gs
+	pg := gs.gate
+	pg.getIP = func(p peer.ID) string {
+		if nd.h.net.connected[p] {
+			return "9.9.9.9"
+		}
+		return "<unknown>"
+	}
+	x := peer.ID("x")
+	outbound := vpBool("x_has_outbound_stream") // (a peer may be known from its inbound stream only)
+	if outbound {
+		nd.vpAddPeer(x, GossipSubID_v11, true)
+	} else {
+		nd.h.net.connected[x] = true
+	}
+	m := vpMkMsg("A", "1", vpT0)
+	m.ReceivedFrom = x
+	verdict := func(k int) {
+		switch k {
+		case 0:
+			ps.tracer.DeliverMessage(m)
+		case 1:
+			ps.tracer.RejectMessage(m, RejectValidationFailed)
+		case 2:
+			ps.tracer.RejectMessage(m, RejectValidationIgnored)
+		case 3:
+			ps.tracer.DuplicateMessage(m)
+		}
+	}
+	verdict(vpInt("first_verdict", 0, 3))
+	lateAt := vpInt("late_verdict_arrives", 0, 3) // 0 none, 1 before the streams close, 2 between the two closes, 3 after both
+	lateKind := vpInt("late_verdict", 0, 3)
+	inboundFirst := vpBool("inbound_closes_first")
+	if lateAt == 1 {
+		verdict(lateKind)
+	}
+	closeOut := func() {
+		nd.h.net.connected[x] = false
+		if outbound {
+			ps.peerDeadPend[x] = struct{}{}
+			ps.handleDeadPeers()
+		}
+	}
+	closeIn := func() { ps.onClosedIncomingStream(x, GossipSubID_v11) }
+	if inboundFirst {
+		closeIn()
+	} else {
+		closeOut()
+	}
+	if lateAt == 2 {
+		verdict(lateKind)
+	}
+	if inboundFirst {
+		closeOut()
+	} else {
+		closeIn()
+	}
+	if lateAt == 3 {
+		verdict(lateKind)
+	}
+	vpAdvance(gp.RetainStats + time.Hour)
+	pg.decayStats()
+	pg.decayStats()
+	_, byPeer := pg.peerStats[x]
+	_, byAddr := pg.ipStats["9.9.9.9"]
+	_, byUnknown := pg.ipStats["<unknown>"]
+	vpAssert(!byPeer, "the gater keeps no per-peer statistics entry for a departed peer once retention has passed, also when a verdict for one of its messages arrived after it left")
+	vpAssert(!byAddr && !byUnknown, "the gater keeps no per-address statistics for a departed peer once retention has passed")
+	vpCover(lateAt == 3 && outbound, "verdict after both streams closed")
+	vpCover(lateAt == 0 && !outbound, "inbound-only peer")
+}
